@@ -2,6 +2,7 @@
    (induction on the pattern, any depth; every value domain), validity of the
    emitted node, the match expression with lifted guards, and the refutations. *)
 From HyV Require Import Ops.PyMatch Gen.MatchTables Ops.Pattern.
+Open Scope list_scope.
 
 (* ---------- the regenerated constants are the documented ones ---------- *)
 Lemma singleton_names_eq : singleton_names = ["None"; "True"; "False"].
@@ -157,7 +158,7 @@ Lemma zip_names_ext names a b : Forall2 meq a b ->
   | _, _ => False
   end.
 Proof.
-  intros H. revert names. induction H as [|x y a b Hxy _ IH]; intros names; [simpl; constructor|].
+  intros H. revert names. induction H as [|x y a b Hxy _ IH]; intros names; [destruct names; simpl; constructor|].
   destruct names as [|n names]; [exact I|]. simpl. specialize (IH names).
   destruct (zip_names value names a), (zip_names value names b); simpl; try contradiction; [|exact I].
   constructor; [split; [reflexivity | exact Hxy] | exact IH].
@@ -232,10 +233,20 @@ Local Notation meq := (meq value).
 
 Lemma compile_star_inv q n : cp q = PMatchStar n -> exists m, q = HStar m /\ n = Some (mangle m).
 Proof.
-  destruct q; simpl; try discriminate.
+  destruct q; cbn [compile]; try discriminate.
   - destruct l; try discriminate. destruct (mem s singleton_names); discriminate.
   - destruct (mem s singleton_names); [discriminate|]. destruct (String.eqb s wildcard_name); discriminate.
   - intros H. inversion H. eauto.
+Qed.
+
+Definition is_hstar (q : hpat) : bool := match q with HStar _ => true | _ => false end.
+
+Lemma compile_not_star q : is_hstar q = false -> forall (A : Type) (f : option string -> A) (d : A),
+  match cp q with PMatchStar n => f n | _ => d end = d.
+Proof.
+  intros Hq A f d. destruct q; try discriminate; cbn [compile]; try reflexivity.
+  - destruct l; try reflexivity. destruct (mem s singleton_names); reflexivity.
+  - destruct (mem s singleton_names); [reflexivity|]. destruct (String.eqb s wildcard_name); reflexivity.
 Qed.
 
 Lemma IH_to_Forall2 ps :
@@ -257,7 +268,7 @@ Theorem pattern_correct_partial : forall h, supported h = true -> forall v, pm (
 Proof.
   induction h using hpat_ind'; intros S.
   - (* literal *)
-    destruct l; try (intros v; reflexivity). simpl in S. apply negb_true_iff in S.
+    destruct l; try (intros v; reflexivity). cbn [supported] in S. apply negb_true_iff in S.
     intros v. cbn [compile]. rewrite S. reflexivity.
   - (* symbol *)
     intros v. cbn [compile hmatch]. rewrite singleton_names_eq, wildcard_name_eq. unfold mem. cbn [existsb].
@@ -273,15 +284,10 @@ Proof.
     cbn [supported] in S. cbn [compile pmatch hmatch]. apply seq_sem_ext. rewrite map_map.
     apply Forall2_map_l. rewrite Forall_forall in *. intros q Hq.
     pose proof (proj1 (forallb_forall _ _) S q Hq) as Sq.
-    destruct (cp q) eqn:Ec;
-      try (destruct q; try discriminate; try (rewrite <- Ec; exact (H q Hq Sq));
-           simpl in Ec;
-           repeat match type of Ec with
-                  | (if ?c then _ else _) = _ => destruct c
-                  | match ?l with _ => _ end = _ => destruct l
-                  end; discriminate).
-    destruct (compile_star_inv q name Ec) as [m [-> ->]]. simpl in Sq. apply negb_true_iff in Sq.
-    cbn [sieq]. rewrite Sq. reflexivity.
+    destruct (is_hstar q) eqn:Eq.
+    + destruct q; try discriminate. cbn [compile sieq]. cbn [supported] in Sq. apply negb_true_iff in Sq.
+      rewrite Sq. reflexivity.
+    + rewrite (compile_not_star q Eq). destruct q; try discriminate; exact (H _ Hq Sq).
   - (* a star outside a sequence *)
     intros v. reflexivity.
   - (* mapping *)
@@ -322,8 +328,8 @@ Lemma lookup_def_fresh pre f g post :
   lookup_def f (pre ++ (f, g) :: post) = Some g.
 Proof.
   intros Hpre Hpost. unfold lookup_def. rewrite rev_app_distr. simpl rev. rewrite <- app_assoc.
-  assert (Hp : forall l, Forall (fun d => f < fst d) l -> forall tl,
-             find (fun d => Nat.eqb (fst d) f) (rev l ++ tl) = find (fun d => Nat.eqb (fst d) f) tl).
+  assert (Hp : forall l : list (nat * nat), Forall (fun d => f < fst d) l -> forall tl,
+             find (fun d : nat * nat => Nat.eqb (fst d) f) (rev l ++ tl) = find (fun d : nat * nat => Nat.eqb (fst d) f) tl).
   { induction l as [|x l IHl]; intros Hl tl; [reflexivity|]. inversion Hl; subst. simpl rev. rewrite <- app_assoc.
     rewrite (IHl H2). simpl. replace (Nat.eqb (fst x) f) with false; [reflexivity|]. symmetry. apply Nat.eqb_neq. lia. }
   rewrite (Hp post Hpost). simpl. rewrite Nat.eqb_refl. reflexivity.
@@ -341,25 +347,25 @@ Proof.
     destruct (hc_guard c) as [g|] eqn:Eg; [destruct (g_stmts g) eqn:Est|].
     + (* lifted guard *)
       destruct (compile_cases mangle r (S ctr)) as [[ds' pcs'] c''] eqn:E. inversion H; subst. clear H.
-      cbn [exec_cases pc_pat pc_guard pc_body]. rewrite (pattern_correct_partial _ Hc).
+      cbn [exec_cases pc_pat pc_guard pc_body app]. rewrite (pattern_correct_partial _ Hc).
       destruct (compile_cases_names r _ _ _ _ E) as [_ F].
-      assert (Hl : lookup_def (S ctr) (pre ++ [(S ctr, g_id g)] ++ ds') = Some (g_id g)).
+      assert (Hl : lookup_def (S ctr) (pre ++ (S ctr, g_id g) :: ds') = Some (g_id g)).
       { apply lookup_def_fresh.
         - eapply Forall_impl; [|exact Hpre]. simpl. intros. lia.
         - eapply Forall_impl; [|exact F]. simpl. intros. lia. }
-      assert (Hrec : execc (pre ++ [(S ctr, g_id g)] ++ ds') pcs' v = hym r v).
-      { rewrite app_assoc. apply (IH (S ctr) ds' pcs' c'' (pre ++ [(S ctr, g_id g)]) v Hr E).
+      assert (Hrec : execc (pre ++ (S ctr, g_id g) :: ds') pcs' v = hym r v).
+      { change (pre ++ (S ctr, g_id g) :: ds') with (pre ++ [(S ctr, g_id g)] ++ ds'). rewrite app_assoc. apply (IH (S ctr) ds' pcs' _ (pre ++ [(S ctr, g_id g)]) v Hr E).
         apply Forall_app. split; [eapply Forall_impl; [|exact Hpre]; simpl; intros; lia | constructor; [simpl; lia | constructor]]. }
       destruct (hm (hc_pat c) v) as [|b|]; [exact Hrec| |reflexivity].
       rewrite Hl. cbn [option_map]. destruct (geval (g_id g) b); [reflexivity | exact Hrec].
     + destruct (compile_cases mangle r ctr) as [[ds' pcs'] c''] eqn:E. inversion H; subst. clear H.
       cbn [exec_cases pc_pat pc_guard pc_body app]. rewrite (pattern_correct_partial _ Hc).
-      pose proof (IH ctr ds' pcs' c'' pre v Hr E Hpre) as Hrec.
+      pose proof (IH ctr _ _ _ pre v Hr E Hpre) as Hrec.
       destruct (hm (hc_pat c) v) as [|b|]; [exact Hrec| |reflexivity].
       destruct (geval (g_id g) b); [reflexivity | exact Hrec].
     + destruct (compile_cases mangle r ctr) as [[ds' pcs'] c''] eqn:E. inversion H; subst. clear H.
       cbn [exec_cases pc_pat pc_guard pc_body app]. rewrite (pattern_correct_partial _ Hc).
-      pose proof (IH ctr ds' pcs' c'' pre v Hr E Hpre) as Hrec.
+      pose proof (IH ctr _ _ _ pre v Hr E Hpre) as Hrec.
       destruct (hm (hc_pat c) v) as [|b|]; [exact Hrec|reflexivity|reflexivity].
 Qed.
 
@@ -367,7 +373,7 @@ Qed.
    guard holds, None if there is none; lifted guards are called by their own case *)
 Theorem match_correct cs ctr v :
   Forall (fun c => supported (hc_pat c) = true) cs ->
-  exec_match mangle value veval veq is_sing as_seq as_map of_list of_dict isinst margs getattr geval beval
+  exec_match value veval veq is_sing as_seq as_map of_list of_dict isinst margs getattr geval beval
     (compile_match mangle cs ctr) v = hym cs v.
 Proof.
   intros Hs. unfold exec_match, compile_match.
@@ -376,7 +382,7 @@ Proof.
 Qed.
 
 Theorem match_none v ctr :
-  exec_match mangle value veval veq is_sing as_seq as_map of_list of_dict isinst margs getattr geval beval
+  exec_match value veval veq is_sing as_seq as_map of_list of_dict isinst margs getattr geval beval
     (compile_match mangle [] ctr) v = ONone.
 Proof. reflexivity. Qed.
 End Correct.
@@ -405,21 +411,25 @@ Fixpoint hwf (in_seq : bool) (h : hpat) : bool :=
   | HAs p n => hwf false p && hname_ok n
   end.
 
+Lemma forallb_map {A B} (f : B -> bool) (g : A -> B) l : forallb f (map g l) = forallb (fun x => f (g x)) l.
+Proof. induction l as [|x l IH]; [reflexivity|]. simpl. rewrite IH. reflexivity. Qed.
+
 Lemma star_filter_compile ps :
   filter (fun q => match q with PMatchStar _ => true | _ => false end) (map (compile mangle) ps)
   = map (compile mangle) (filter (fun q => match q with HStar _ => true | _ => false end) ps).
 Proof.
-  induction ps as [|q ps IH]; [reflexivity|]. simpl.
-  destruct q; simpl; try (rewrite IH; reflexivity).
-  - destruct l; simpl; try (rewrite IH; reflexivity). destruct (mem s singleton_names); simpl; rewrite IH; reflexivity.
-  - destruct (mem s singleton_names); [simpl; rewrite IH; reflexivity|].
-    destruct (String.eqb s wildcard_name); simpl; rewrite IH; reflexivity.
+  induction ps as [|q ps IH]; [reflexivity|]. cbn [map filter].
+  destruct (is_hstar q) eqn:E.
+  - destruct q; try discriminate. cbn [compile map]. rewrite IH. reflexivity.
+  - rewrite (compile_not_star mangle q E).
+    replace (match q with HStar _ => true | _ => false end) with false by (destruct q; try reflexivity; discriminate).
+    exact IH.
 Qed.
 
 Theorem compile_valid : forall h b, supported mangle h = true -> hwf b h = true -> valid b (compile mangle h) = true.
 Proof.
   induction h using hpat_ind'; intros b S W.
-  - destruct l; try reflexivity. simpl in S. apply negb_true_iff in S. cbn [compile]. rewrite S. reflexivity.
+  - destruct l; try reflexivity. cbn [supported] in S. apply negb_true_iff in S. cbn [compile]. rewrite S. reflexivity.
   - cbn [compile]. cbn [hwf] in W. rewrite singleton_names_eq in *. unfold mem in *. cbn [existsb] in *.
     unfold singleton_of.
     destruct (String.eqb s "None") eqn:E1; [reflexivity|].
@@ -498,7 +508,10 @@ Proof. repeat split; vm_compute; reflexivity. Qed.
 Theorem refuted_class_keyword : kwd_attrs_mangled = false ->
   t_hm t_mangle (HClass ["C"] [] ["a-b"] [HLit (LStr "v")]) (TObj [("a_b", TStr "v")]) = MYes []
   /\ t_pm (compile t_mangle (HClass ["C"] [] ["a-b"] [HLit (LStr "v")])) (TObj [("a_b", TStr "v")]) = MNo.
-Proof. intros H. split; vm_compute; reflexivity. Qed.
+Proof.
+  intros H. split; [vm_compute; reflexivity|].
+  unfold t_pm. cbn [compile map]. unfold kw_attr. rewrite H. vm_compute. reflexivity.
+Qed.
 
 Theorem pattern_correct_refuted : ~ pattern_correct_full.
 Proof.
